@@ -15,6 +15,12 @@ def run(tier, replay):
     with vlib.Scratch("c05") as sc:
         mc = vlib.model_check("MC_Conn", "MC_Conn", workers=2, heap="2g")
         vlib.model_check("MC_Conn", "MC_Conn_impl", expect_violation=True, workers=2, heap="2g")
+        # unbounded: the delivery invariants of Conn are inductive for every response length and every short-write pattern
+        # (Apalache, SMT); the single-write variant of the pinned tree must break the induction step
+        from concurrent.futures import ThreadPoolExecutor
+        apa_pool = ThreadPoolExecutor(max_workers=2)
+        apa = [apa_pool.submit(vlib.apalache_inductive, "ConnApa", "IndInv"),
+               apa_pool.submit(vlib.apalache_inductive, "ConnApa", "IndInv", cinit="ConstInitImpl", expect_error=True)]
         paths, total, gens = [], 0, []
         for mode in (["single", "scripts"] if tier == "quick" else ["single", "scripts", "pairs"]):
             p, n, g = C.generate(mode, sc)
@@ -24,11 +30,13 @@ def run(tier, replay):
         verdict = vlib.Verdict("C05")
         tv = C.judge("C05", "Trace_Conn_c05", trace, verdict, signature, heap="12g")
         n = C.count(trace)
+        for f in apa:
+            f.result()          # a ToolError here is a refuted / vacuous specification, not a verdict
         ev["coverage"] = {
             "states": mc.distinct + sum(g.distinct for g in gens), "transitions": mc.generated + sum(g.generated for g in gens),
             "traces_validated_against_impl": n["End"], "transport_write_events": n["Write"], "spec_cases_replayed": total,
             "samples": C.samples(trace, 3),
-            "rule": "MC_Conn: Conn against an adversarial transport (all short-write/zero/fault interleavings for responses <= 6 bytes), the single-write variant refuted; "
+            "rule": "MC_Conn: Conn against an adversarial transport (all short-write/zero/fault interleavings for responses <= 6 bytes), the single-write variant refuted; ConnApa (Apalache): the delivery invariants are inductive over unbounded lengths, the single-write variant breaks the step; "
                     "Gen_Conn: all single mutations of 20 seeds (hostile Origin / Access-Control-Request-* / Range / Content-Type values with CR, LF, NUL, colons, fake header and "
                     "status lines) + 8 seeds x 60 transport scripts; every write call validated as a Conn step (write_all protocol), accepted bytes judged by HttpMsg!WellFormed",
         }
